@@ -233,10 +233,18 @@ pub fn gen_cases(cfg: &RunCfg) -> (Vec<Case>, bool) {
 pub fn run(cfg: &RunCfg) -> Report {
     let mut rep = Report::new(
         "C06",
-        "every (lower, upper) pair of the 53-point boundary set (MIN, MAX, 0, ±1, ±2^k, ±2^k±1, k∈{7,8,15,16,31,32,63,64}) × extension marker × contexts {type assignment, component, SEQUENCE OF element, value assignment, DEFAULT, value through a type reference}, single values, plus seeded random serial combinations; a case is non-trivial when it compiled and its integer token was observed; distinct = distinct (context, constraints, literal)",
+        "every (lower, upper) pair of the 53-point boundary set (MIN, MAX, 0, ±1, ±2^k, ±2^k±1, k∈{7,8,15,16,31,32,63,64}) × extension marker × contexts {type assignment, component, SEQUENCE OF element, value assignment, DEFAULT, value through a type reference}, single values, plus seeded random serial combinations, plus unions and intersections of two or three ranges / single values from the boundary set in either operand order (with and without a marker, with and without a further serial constraint) on components and type assignments; a case is non-trivial when it compiled and its integer token was observed; distinct = distinct (context, constraints, literal)",
     );
+    if let Some(r) = &cfg.replay {
+        let r = r.get("case").unwrap_or(r);
+        if let (Some(ctx), Some(text), Some(sx)) = (r["set_ctx"].as_str(), r["set_text"].as_str(), r["set_sx"].as_str()) {
+            let sc = SetCase { component: ctx == "component", text: text.to_string(), sx: sx.to_string() };
+            run_sets(&[sc], &mut rep);
+            return rep;
+        }
+    }
     let cases: Vec<Case> = if let Some(r) = &cfg.replay {
-        vec![case_from_json(r).expect("bad replay case")]
+        vec![case_from_json(r.get("case").unwrap_or(r)).expect("bad replay case")]
     } else {
         gen_cases(cfg).0
     };
@@ -341,7 +349,146 @@ pub fn run(cfg: &RunCfg) -> Report {
             }
         }
     }
+    if cfg.replay.is_none() {
+        run_sets(&gen_sets(cfg), &mut rep);
+    }
     rep
+}
+
+/// a constraint list that contains set operators (`a..b | c..d`, `a..b ^ c..d`, optionally with a marker and a
+/// further serial constraint), as notation and as the C04-style s-expression the Lean side folds
+pub struct SetCase {
+    pub component: bool,
+    /// the constraints, e.g. `(250..300 | 0..10)(0..MAX)`
+    pub text: String,
+    pub sx: String,
+}
+
+fn gen_sets(cfg: &RunCfg) -> Vec<SetCase> {
+    let bs = boundary_set();
+    let mut rng = Rng::new(cfg.seed ^ 0xC06B);
+    let n = cfg.budget(700, 20000);
+    let mut out = Vec::new();
+    let show = |v: &Option<i128>, min: bool| v.map_or(if min { "MIN".to_string() } else { "MAX".to_string() }, |x| x.to_string());
+    for k in 0..n {
+        let union = k % 2 == 0;
+        let n_ops = 1 + rng.below(2);
+        // operands: ranges (sometimes open) and single values; for an intersection all contain `anchor`
+        let anchor = *rng.pick(&bs);
+        let mut elems: Vec<(Option<i128>, Option<i128>, bool)> = Vec::new(); // (lo, hi, single)
+        for _ in 0..=n_ops {
+            if union {
+                if rng.chance(1, 4) {
+                    let v = *rng.pick(&bs);
+                    elems.push((Some(v), Some(v), true));
+                } else {
+                    let a = *rng.pick(&bs);
+                    let b = *rng.pick(&bs);
+                    let (lo, hi) = (a.min(b), a.max(b));
+                    elems.push((if rng.chance(1, 12) { None } else { Some(lo) }, if rng.chance(1, 12) { None } else { Some(hi) }, false));
+                }
+            } else {
+                let los: Vec<i128> = bs.iter().cloned().filter(|v| *v <= anchor).collect();
+                let his: Vec<i128> = bs.iter().cloned().filter(|v| *v >= anchor).collect();
+                elems.push((if rng.chance(1, 10) { None } else { Some(*rng.pick(&los)) }, if rng.chance(1, 10) { None } else { Some(*rng.pick(&his)) }, false));
+            }
+        }
+        let marker = rng.chance(1, 5);
+        let el_asn = |e: &(Option<i128>, Option<i128>, bool)| if e.2 { e.0.unwrap().to_string() } else { format!("{}..{}", show(&e.0, true), show(&e.1, false)) };
+        let el_sx = |e: &(Option<i128>, Option<i128>, bool)| if e.2 { format!("( single {} )", e.0.unwrap()) } else { format!("( range {} {} )", sx_opt(&e.0), sx_opt(&e.1)) };
+        let op_txt = if union { [" | ", " UNION "][rng.below(2)] } else { [" ^ ", " INTERSECTION "][rng.below(2)] };
+        let mut text = format!("({}{})", elems.iter().map(el_asn).collect::<Vec<_>>().join(op_txt), if marker { ", ..." } else { "" });
+        let mut sx = vec![format!(
+            "( chain {} f f f {} {} )",
+            sx_bool(marker),
+            el_sx(&elems[0]),
+            sx_list(elems[1..].iter().map(|e| format!("( {} {} )", if union { "union" } else { "inter" }, el_sx(e))))
+        )];
+        // a further serial constraint, plain, that keeps the set non-empty
+        if rng.chance(1, 4) {
+            let inside = if union { elems[0].0.or(elems[0].1).unwrap_or(0) } else { anchor };
+            let los: Vec<i128> = bs.iter().cloned().filter(|v| *v <= inside).collect();
+            let his: Vec<i128> = bs.iter().cloned().filter(|v| *v >= inside).collect();
+            let (lo, hi) = (*rng.pick(&los), *rng.pick(&his));
+            let m2 = rng.chance(1, 6);
+            text.push_str(&format!("({lo}..{hi}{})", if m2 { ", ..." } else { "" }));
+            sx.push(format!("( chain {} f f f ( range ( some {lo} ) ( some {hi} ) ) ( ) )", sx_bool(m2)));
+        }
+        out.push(SetCase { component: k % 3 != 2, text, sx: sx_list(sx.into_iter()) });
+    }
+    out
+}
+
+fn run_sets(sets: &[SetCase], rep: &mut Report) {
+    let rcfg = rasn_compiler::prelude::RasnConfig::default();
+    let asn = |i: usize| if sets[i].component { format!("S{i} ::= SEQUENCE {{ f INTEGER {} }}", sets[i].text) } else { format!("A{i} ::= INTEGER {}", sets[i].text) };
+    let render = |idx: &[usize]| vec![wrap(&idx.iter().map(|i| asn(*i)).collect::<Vec<_>>())];
+    let mut requests = Vec::new();
+    let mut meta = Vec::new();
+    for (idx, outcome) in batch_compile(sets.len(), 150, &render, &rcfg) {
+        match outcome {
+            Outcome::Ok { generated, .. } => {
+                let mods = match proj::project(&generated) {
+                    Ok(m) => m,
+                    Err(e) => {
+                        rep.harness_errors.push(format!("projection failed: {e}"));
+                        continue;
+                    }
+                };
+                let Some(m) = mods.first() else { continue };
+                for i in idx {
+                    rep.evaluations += 1;
+                    let probe = Case { ctx: if sets[i].component { Ctx::Component } else { Ctx::Assign }, cons: vec![], lit: None };
+                    match observe(m, &probe, i) {
+                        Ok((tok, _)) => {
+                            rep.count(if sets[i].component { "set-expression:component" } else { "set-expression:assignment" });
+                            rep.count(&format!("set-expression:token:{tok}"));
+                            rep.distinct.insert(format!("{}{}", sets[i].component, sets[i].text));
+                            requests.push(format!("c06set {} {} {}", if sets[i].component { "component" } else { "assign" }, sets[i].sx, tok));
+                            meta.push((i, tok));
+                        }
+                        Err(_) => rep.count("set-expression:unobserved"),
+                    }
+                }
+            }
+            Outcome::Err(e) => {
+                rep.evaluations += 1;
+                rep.count("set-expression:compile-err");
+                rep.sample(json!({"compile_err": e, "case": asn(idx[0])}));
+            }
+            Outcome::Panic(p) => rep.harness_errors.push(format!("panic on {}: {p}", asn(idx[0]))),
+        }
+    }
+    let answers = match run_driver(&requests) {
+        Ok(a) => a,
+        Err(e) => {
+            rep.harness_errors.push(e);
+            return;
+        }
+    };
+    for (k, ans) in answers.iter().enumerate() {
+        let (i, tok) = &meta[k];
+        let parts: Vec<&str> = ans.split(' ').collect();
+        if parts.len() != 3 {
+            rep.harness_errors.push(format!("driver answer `{ans}` for `{}`", requests[k]));
+            continue;
+        }
+        let class = if parts[2] == "none" { "" } else { parts[2] };
+        let case_json = json!({"set_ctx": if sets[*i].component { "component" } else { "assign" }, "set_text": sets[*i].text, "set_sx": sets[*i].sx,
+            "asn1": asn(*i), "observed_token": tok, "model_token": parts[0]});
+        if k % 499 == 0 {
+            rep.sample(case_json.clone());
+        }
+        let agrees = parts[0] == tok;
+        if !agrees {
+            rep.disagree(case_json.clone());
+        }
+        match parts[1] {
+            "t" => {}
+            "skip" => rep.count("set-expression:empty-set"),
+            _ => rep.unsat(class, agrees, json!({"why": "token cannot hold every value the set expression permits, or fixed width for an extensible/open constraint", "case": case_json})),
+        }
+    }
 }
 
 fn case_from_json(v: &serde_json::Value) -> Option<Case> {
